@@ -926,6 +926,26 @@ func main() {
 		add(strings.TrimSpace(fmt.Sprintf("sesscfg host=%d static=%s prov=%s ", h, static, prov)+strings.Join(sc, " ")),
 			func(a string) string { return "oracle/sesscfg/" + first(a) })
 	}
+	// property monitors on the observed trace (never both Authenticator and AuthProvider: NewSession refuses that)
+	for i := 0; i < 500*mult; i++ {
+		cls := genClass(r)
+		cfg := genConn(r, cls)
+		for !strings.Contains(cfg, "static=none") && !strings.HasSuffix(cfg, "prov=-") {
+			cfg = genConn(r, cls)
+		}
+		sc := genScript(r, cls)
+		if i%4 == 0 {
+			var a string
+			a, sc = genCoherent(r, cls)
+			h := 1 + r.Intn(3)
+			cfg = fmt.Sprintf("host=%d static=%s prov=-", h, a)
+			if r.Bool() {
+				cfg = fmt.Sprintf("host=%d static=none prov=%s", h, genProvider(r, cls, h, a))
+			}
+		}
+		kind, _ := credentialsFor(parseScenario("mon " + cfg))
+		add(strings.TrimSpace("mon "+cfg+" "+strings.Join(sc, " ")), func(a string) string { return "oracle/mon/" + kind + "/" + first(a) })
+	}
 	// setupTLSConfig: the whole finite domain of (config, EnableHostVerification) x file states
 	cfgs := []string{"nil"}
 	for _, i := range "01" {
